@@ -5673,7 +5673,11 @@ public:
     template<typename T, typename Tag>
     SBEPP_CPP14_CONSTEXPR bool on_data(T d, Tag) noexcept
     {
-        return !validate_and_subtract(sbepp::size_bytes(d));
+        // header and payload are validated separately because their sum,
+        // `sbepp::size_bytes(d)`, wraps around for huge 64-bit lengths
+        return !(
+            validate_and_subtract(sizeof(typename T::size_type))
+            && validate_and_subtract(d.size()));
     }
 
     // ignore them all because we validate `blockLength`
